@@ -11,7 +11,10 @@ import (
 // the package under test (functions hOsStat, hOsReadFile, hOsUserHomeDir); the stubs
 // delegate to them. Without those functions a call into os is unsupported.
 
-type vfileHandle struct{ content string }
+type vfileHandle struct {
+	content string
+	pos     int
+}
 
 func (in *Interp) harnessFunc(name string) *Closure {
 	for _, pkg := range in.Prog.AllPackages() {
@@ -63,9 +66,49 @@ func (in *Interp) installStubs8() {
 			return Tuple{Ptr{}, e}
 		}
 		content := string(in.concreteBytesOrConcretize(r[0], "file content"))
-		return Tuple{in.newNative(&vfileHandle{content}), Iface{}}
+		return Tuple{in.newNative(&vfileHandle{content: content}), Iface{}}
 	}
 	S["(*os.File).Close"] = func(in *Interp, a []Value) Value { return Iface{} }
+	S["(*os.File).Read"] = func(in *Interp, a []Value) Value {
+		h, ok := in.nativeOf(a[0].(Ptr)).(*vfileHandle)
+		if !ok {
+			abortf("unsupported: Read on a real *os.File")
+		}
+		dst := a[1].(SliceV)
+		if h.pos >= len(h.content) {
+			if dst.Len == 0 {
+				return Tuple{st.BVConstI(0, 64), Iface{}}
+			}
+			return Tuple{st.BVConstI(0, 64), in.ioEOF()}
+		}
+		n := copy(make([]byte, dst.Len), h.content[h.pos:])
+		for i := 0; i < n; i++ {
+			dst.Arr.Cells[dst.Off+i] = st.BVConstI(int64(h.content[h.pos+i]), 8)
+		}
+		h.pos += n
+		return Tuple{st.BVConstI(int64(n), 64), Iface{}}
+	}
+	S["(*os.File).Seek"] = func(in *Interp, a []Value) Value {
+		h, ok := in.nativeOf(a[0].(Ptr)).(*vfileHandle)
+		if !ok {
+			abortf("unsupported: Seek on a real *os.File")
+		}
+		off, whence := in.concInt(a[1], "seek offset"), in.concInt(a[2], "seek whence")
+		switch whence {
+		case 0:
+			h.pos = off
+		case 1:
+			h.pos += off
+		default:
+			h.pos = len(h.content) + off
+		}
+		if h.pos < 0 {
+			h.pos = 0
+			return Tuple{st.BVConstI(0, 64), in.goError("seek: invalid argument")}
+		}
+		return Tuple{st.BVConstI(int64(h.pos), 64), Iface{}}
+	}
+	S["(*os.File).Fd"] = func(in *Interp, a []Value) Value { return st.BVConstI(3, 64) }
 	// json.NewDecoder over a virtual file
 	prev := S["encoding/json.NewDecoder"]
 	S["encoding/json.NewDecoder"] = func(in *Interp, a []Value) Value {
@@ -75,7 +118,47 @@ func (in *Interp) installStubs8() {
 				return in.newNative(&jsonDecModel{dec: json.NewDecoder(strings.NewReader(h.content)), src: h.content})
 			}
 		}
-		return prev(in, a)
+		if _, ok := r.V.(Ptr); ok && r.T != nil && r.T.String() == "*strings.Reader" {
+			return prev(in, a)
+		}
+		// any other reader: drain it through its own (interpreted) Read method; the decoder
+		// then works on the whole content (its buffering behaviour is not modelled)
+		content := in.drainReader(r)
+		return in.newNative(&jsonDecModel{dec: json.NewDecoder(strings.NewReader(content)), src: content})
 	}
 	_ = smt.Bool
+}
+
+// drainReader reads an io.Reader value to EOF through its interpreted Read method and
+// returns the content (symbolic bytes are concretized).
+func (in *Interp) drainReader(r Iface) string {
+	if r.T == nil {
+		in.panicf("nil io.Reader")
+	}
+	sel := in.Prog.MethodSets.MethodSet(r.T).Lookup(nil, "Read")
+	if sel == nil {
+		abortf("unsupported: reader %v has no Read method", r.T)
+	}
+	read := in.Prog.MethodValue(sel)
+	var out []byte
+	for rounds := 0; rounds < 10000; rounds++ {
+		buf := in.byteSlice(make([]byte, 256))
+		res := in.callFunction(read, []Value{r.V, buf}).(Tuple)
+		n := in.concIntC(res[0])
+		for i := 0; i < n; i++ {
+			t := buf.Arr.Cells[i].(*smt.Term)
+			if !t.IsConst() {
+				t = in.Ctx.Concretize(t)
+			}
+			out = append(out, byte(t.Val.Uint64()))
+		}
+		if e := res[1].(Iface); e.T != nil {
+			return string(out)
+		}
+		if n == 0 {
+			rounds += 100
+		}
+	}
+	abortf("unsupported: reader did not reach EOF")
+	return ""
 }
